@@ -180,14 +180,38 @@ fn typed_other(fsys: &LayeredFilesystem, path: &str, loc: bool, k: u32) -> Strin
         es.sort();
         es.join(",")
     }
-    let helper: Result<String, LayeredFilesystemError> = match k {
-        0 => fsys.read_arc(path, loc).map(|m| map_key(m.iter())),
-        1 => fsys.read_fe9_arc(path, loc).map(|m| map_key(m.iter())),
-        2 => fsys.read_tpl_textures(path, loc).map(tex_key),
-        3 => fsys.read_bch_textures(path, loc).map(|m| tex_key(m.into_iter().map(|(_, t)| t).collect())),
-        4 => fsys.read_ctpk_textures(path, loc).map(|m| tex_key(m.into_iter().map(|(_, t)| t).collect())),
-        _ => fsys.read_cgfx_textures(path, loc).map(|m| tex_key(m.into_iter().map(|(_, t)| t).collect())),
-    };
+    // a texture / container parser may panic on bytes that are not such a file (outside every property); what C12 says is
+    // that the helper IS the parser composed with `read`, so a panic of the helper is compared with a panic of the parser
+    use std::panic::{catch_unwind, AssertUnwindSafe};
+    let helper_r = catch_unwind(AssertUnwindSafe(|| -> Result<String, LayeredFilesystemError> {
+        match k {
+            0 => fsys.read_arc(path, loc).map(|m| map_key(m.iter())),
+            1 => fsys.read_fe9_arc(path, loc).map(|m| map_key(m.iter())),
+            2 => fsys.read_tpl_textures(path, loc).map(tex_key),
+            3 => fsys.read_bch_textures(path, loc).map(|m| tex_key(m.into_iter().map(|(_, t)| t).collect())),
+            4 => fsys.read_ctpk_textures(path, loc).map(|m| tex_key(m.into_iter().map(|(_, t)| t).collect())),
+            _ => fsys.read_cgfx_textures(path, loc).map(|m| tex_key(m.into_iter().map(|(_, t)| t).collect())),
+        }
+    }));
+    if helper_r.is_err() {
+        // the helper panicked: same verdict iff the parser panics on the bytes `read` returns
+        return match fsys.read(path, loc) {
+            Err(_) => "panic".to_string(),
+            Ok(b) => {
+                let direct_panics = catch_unwind(AssertUnwindSafe(|| match k {
+                    0 => arc::from_bytes(&b).is_ok(),
+                    1 => fe9_arc::parse(&b).is_ok(),
+                    2 => tpl::Tpl::extract_textures(&b).is_ok(),
+                    3 => bch::read(&b).is_ok(),
+                    4 => ctpk::read(&b).is_ok(),
+                    _ => cgfx::read(&b).is_ok(),
+                }))
+                .is_err();
+                if direct_panics && k >= 2 { "tr:same-panic".to_string() } else { "panic".to_string() }
+            }
+        };
+    }
+    let helper = helper_r.unwrap();
     match fsys.read(path, loc) {
         Err(e0) => match helper {
             Err(e1) if err_kind(&e1) == err_kind(&e0) => err_kind(&e1),
